@@ -65,30 +65,26 @@ def mk_node(cls, depth=0):
 
 
 def run(model, rep):
-    rep.explanation = ('(GATE) every call in minify() to a stage whose effect summary rewrites the tree is reachable only under the truthiness fact of its own option; the '
-                       'unconditional stages only write annotations. (SUITE2) for each of the four filtering transformers and each statement-list field of the ASDL the '
-                       'transformer is abstractly run on a descriptor of that class: the list must be handed to suite(). (SUITE1/FILTER) each suite() override is '
-                       'abstractly run on statement lists: it removes exactly the documented kind, keeps the order, never returns an empty list for a non-module parent. '
-                       '(DEBUG) RemoveDebug is run on every shape of if-test and on an if with an else branch; (DOC) RemoveLiteralStatements on a module that names __doc__; '
-                       '(EXC) the bracket removal on every position of a builtin name (call in raise, call with arguments, call elsewhere, redefined builtin, non-exception); '
-                       '(ANN/SCOPE) RemoveAnnotations on every combination of option set x scope (class, dataclass forms, NamedTuple/TypedDict, function, module) x nesting '
-                       '(direct, under if/for/while/with/try) x value/no value; (RET/OBJ/IMP/POS) the remaining rewrites on their input shapes. '
-                       'Not decided: bisimilarity of compiled code; interaction of two transforms on one node.')
+    rep.explanation = ('(GATE) minify() is evaluated with every stage answered by a recorder: with every option off no rewriting stage runs, each option switches exactly its own '
+                       'stage; the unconditional stages only write annotations (effect summaries). Every other rule evaluates the real minify() - nothing replaced, the module '
+                       'handed to the printer captured - with exactly one option on, on probe modules, and compares the result with the documented rewrite implemented '
+                       'independently in the checker: (OFF) all options off -> the parsed tree, unchanged; (SUITE) pass / assert / literal statements removed from every kind of '
+                       'statement list of the grammar, emptied blocks become `0`; (DEBUG) only tests of __debug__ being true, else branches survive; (DOC) docstrings kept when '
+                       'the module reads __doc__; (EXC) brackets dropped only for no-argument calls of un-shadowed builtin exception classes directly in raise, for every '
+                       'builtin name; (ANN) annotation removal by option set x scope kind (class, dataclass forms, NamedTuple/TypedDict, function, module, scopes nested in '
+                       'each other) x nesting x value/no value; (RET/OBJ/IMP/POS) the remaining rewrites. Not decided: bisimilarity of compiled code in general.')
     for r, t in [('C05.GATE', 'rewriting stage reachable only under its own option'), ('C05.EFF', 'unconditional stages are annotation-only'),
-                 ('C05.SUITE1', 'suite() overrides: exact kind removed, order kept, never empty for non-module parents'),
-                 ('C05.SUITE2', 'every statement-list field of the ASDL is routed through suite()'),
+                 ('C05.OFF', 'every option off: the tree handed to the printer is the parsed one'),
+                 ('C05.ONLY', 'exactly one option on: that option\'s rewrite and no other'),
+                 ('C05.SUITE', 'statement filters: exact kind removed from every kind of statement list, order kept, emptied blocks become `0`'),
                  ('C05.DEBUG', '__debug__ tests only; else branch survives'), ('C05.DOC', 'docstring kept when the module uses __doc__'),
                  ('C05.EXC', 'brackets dropped only for no-arg calls of un-shadowed builtin exceptions directly in raise'),
                  ('C05.ANN', 'annotation removal by option and scope'), ('C05.RET', 'return None'), ('C05.OBJ', 'object base'), ('C05.IMP', 'import merging'), ('C05.POS', 'positional-only markers')]:
         rep.rule(r, t)
+    from . import transform_e2e
     gate(model, rep)
-    suite2(model, rep)
-    suite1(model, rep)
-    debug(model, rep)
-    doc(model, rep)
-    exc(model, rep)
-    ann(model, rep)
-    small(model, rep)
+    transform_e2e.run(model, rep)
+    transform_e2e.ann(model, rep)
 
 
 # ---------------------------------------------------------------------- GATE / EFF
@@ -169,597 +165,3 @@ def gate(model, rep):
     rep.check(not unknown, 'C05.GATE', mi.loc(), 'stages of the default run', 'all belong to a documented option', 'stages %s run by default but belong to no documented option' % unknown, key='C05.GATE|unknown')
     rep.floor('C05.GATE', 30)
     rep.floor('C05.EFF', 6)
-
-
-# ---------------------------------------------------------------------- SUITE2
-def suite2(model, rep):
-    pairs = []
-    for c in asdl().values():
-        if c.name in ('Interactive', 'Match'):
-            continue
-        for f in c.stmt_list_fields():
-            if (c.sort in ('stmt', 'mod', 'excepthandler') or c.name == 'match_case'):
-                pairs.append((c.name, f))
-    rep.count('stmt_list_fields', len(pairs))
-    cells = 0
-    for tname, tq in sorted(FILTERING.items()):
-        for (cls, field) in sorted(pairs):
-            node = mk_node(cls)
-            if cls == 'Module':
-                node.attrs['bindings'] = []
-            seen = []
-            hooks = hooks_for_transform()
-            hooks['self.suite'] = lambda I, e, args, kw, env: (seen.append(args[0]), args[0])[1]
-            hooks['_doc_in_module'] = lambda I, e, args, kw, env: False
-            I = Interp(model, tq.rsplit('.', 1)[0], hooks)
-            so = Obj(tname)
-            res = I.explore(lambda: I.call_method(tq, 'visit', so, [node]))
-            cells += 1
-            for (o, ev, unk) in res:
-                if o[0] not in ('return',):
-                    raise AnalysisError('UNDECIDED: %s.visit(<%s>) -> %s %s' % (tname, cls, o, unk[:3]))
-            routed = any(l is node.attrs[field] for l in seen)
-            rep.check(routed, 'C05.SUITE2', model.cls(ST).path, '%s: %s.%s' % (tname, cls, field), 'handed to suite()',
-                      '%s statements in %s.%s are never filtered: the list is not routed through suite() (falls through to generic traversal)' % (tname, cls, field),
-                      key='C05.SUITE2|%s.%s' % (cls, field) if tname == 'RemovePass' else 'C05.SUITE2|%s|%s.%s' % (tname, cls, field))
-    rep.floor('C05.SUITE2', 4 * 20)
-
-
-# ---------------------------------------------------------------------- SUITE1 / FILTER
-def stmt_exemplars():
-    return {
-        'Pass': lambda: Obj('Pass'),
-        'Assert': lambda: Obj('Assert', test=Name('x'), msg=None),
-        'ExprStr': lambda: Expr(Const('doc')),
-        'ExprNum': lambda: Expr(Const(1)),
-        'ExprBytes': lambda: Expr(Const(b'b')),
-        'ExprNone': lambda: Expr(Const(None)),
-        'ExprName': lambda: Expr(Name('x')),
-        'ExprCall': lambda: Expr(Call(Name('f'))),
-        'IfDebug': lambda: Obj('If', test=Name('__debug__'), body=[Obj('Break')], orelse=[]),
-        'IfOther': lambda: Obj('If', test=Name('x'), body=[Obj('Break')], orelse=[]),
-        'Assign': lambda: Obj('Assign', targets=[Name('a', 'Store')], value=Name('b')),
-        'Return': lambda: Obj('Return', value=None),
-    }
-
-
-DOCUMENTED_REMOVALS = {'RemovePass': {'Pass'}, 'RemoveAsserts': {'Assert'}, 'RemoveLiteralStatements': {'ExprStr', 'ExprNum', 'ExprBytes', 'ExprNone'}, 'RemoveDebug': {'IfDebug'}}
-
-
-def suite1(model, rep):
-    ex = stmt_exemplars()
-    cells = 0
-    for tname, tq in sorted(FILTERING.items()):
-        fi = model.method(tq, 'suite')
-        removed_ok = True
-        problems = []
-        for parent_cls in ('Module', 'FunctionDef', 'If', 'ExceptHandler', 'ClassDef'):
-            for n in (1, 2):
-                for combo in itertools.product(sorted(ex), repeat=n):
-                    stmts = [ex[k]() for k in combo]
-                    parent = Obj(parent_cls, body=stmts)
-                    hooks = hooks_for_transform()
-                    hooks['self.visit'] = lambda I, e, args, kw, env: args[0]
-                    I = Interp(model, tq.rsplit('.', 1)[0], hooks)
-                    so = Obj(tname)
-                    res = I.explore(lambda: I.call_method(tq, 'suite', so, [stmts, parent]))
-                    cells += 1
-                    for (o, ev, unk) in res:
-                        if o[0] != 'return' or o[1] is TOP:
-                            raise AnalysisError('UNDECIDED: %s.suite(%s, <%s>) -> %s %s' % (tname, list(combo), parent_cls, o, unk[:3]))
-                        out = o[1]
-                        keep = [s for s, k in zip(stmts, combo) if k not in DOCUMENTED_REMOVALS[tname]]
-                        if keep:
-                            want_ok = len(out) == len(keep) and all(a is b for a, b in zip(out, keep))
-                            if not want_ok:
-                                problems.append('%s in <%s>: result keeps %s' % (list(combo), parent_cls, [combo[stmts.index(x)] if x in stmts else getattr(x, 'cls', x) for x in out]))
-                        elif parent_cls == 'Module':
-                            if out != []:
-                                problems.append('%s in <Module>: expected an empty body, got %d statements' % (list(combo), len(out)))
-                        else:
-                            placeholder = len(out) == 1 and isinstance(out[0], Obj) and out[0].cls == 'Expr' and isinstance(out[0].attrs.get('value'), Obj) and \
-                                out[0].attrs['value'].cls == 'Constant' and out[0].attrs['value'].attrs.get('value') == 0 and type(out[0].attrs['value'].attrs.get('value')) is int
-                            if not placeholder:
-                                problems.append('%s in <%s>: an emptied block must become the single statement `0`, got %s' % (list(combo), parent_cls, [getattr(x, 'cls', x) for x in out]))
-        if problems:
-            rep.violation('C05.SUITE1', fi.loc(), '%s.suite' % tname, '; '.join(problems[:3]) + (' (+%d more)' % (len(problems) - 3) if len(problems) > 3 else ''), key='C05.SUITE1|' + tname)
-        else:
-            rep.ok('C05.SUITE1', fi.loc(), '%s.suite' % tname, 'removes exactly %s; order kept; emptied blocks become `0` (module: empty)' % sorted(DOCUMENTED_REMOVALS[tname]), key='C05.SUITE1|' + tname)
-    rep.count('suite_cells', cells)
-    rep.floor('C05.SUITE1', 4)
-
-
-# ---------------------------------------------------------------------- DEBUG
-def debug(model, rep):
-    tq = FILTERING['RemoveDebug']
-    fi = model.method(tq, 'can_remove')
-    T_, F_, N_ = Const(True), Const(False), Const(None)
-    tests = {
-        '__debug__': (Name('__debug__'), True),
-        '__debug__ is True': (Compare(Name('__debug__'), 'Is', Const(True)), True),
-        '__debug__ is not False': (Compare(Name('__debug__'), 'IsNot', Const(False)), True),
-        '__debug__ == True': (Compare(Name('__debug__'), 'Eq', Const(True)), True),
-        'x': (Name('x'), False),
-        'x is True': (Compare(Name('x'), 'Is', Const(True)), False),
-        'x is not False': (Compare(Name('x'), 'IsNot', Const(False)), False),
-        'x == True': (Compare(Name('x'), 'Eq', Const(True)), False),
-        'f() is True': (Compare(Call(Name('f')), 'Is', Const(True)), False),
-        '__debug__ is False': (Compare(Name('__debug__'), 'Is', Const(False)), False),
-        '__debug__ is not True': (Compare(Name('__debug__'), 'IsNot', Const(True)), False),
-        '__debug__ == False': (Compare(Name('__debug__'), 'Eq', Const(False)), False),
-        '__debug__ is None': (Compare(Name('__debug__'), 'Is', Const(None)), False),
-        '__debug__ is 1': (Compare(Name('__debug__'), 'Is', Const(1)), False),
-        '__debug__ == 1': (Compare(Name('__debug__'), 'Eq', Const(1)), False),
-        '__debug__ != True': (Compare(Name('__debug__'), 'NotEq', Const(True)), False),
-        'not __debug__': (Obj('UnaryOp', op=Obj('Not'), operand=Name('__debug__')), False),
-        'x.__debug__': (Attr(Name('x'), '__debug__'), False),
-        '__debug__ and x': (Obj('BoolOp', op=Obj('And'), values=[Name('__debug__'), Name('x')]), False),
-        '__debug__ is True is x': (Obj('Compare', left=Name('__debug__'), ops=[Obj('Is'), Obj('Is')], comparators=[Const(True), Name('x')]), False),
-    }
-    for label, (test, want) in sorted(tests.items()):
-        node = Obj('If', test=test, body=[Obj('Break')], orelse=[])
-        I = Interp(model, tq.rsplit('.', 1)[0], hooks_for_transform())
-        so = Obj('RemoveDebug')
-        res = I.explore(lambda: I.call_method(tq, 'can_remove', so, [node]))
-        outs = set()
-        for (o, ev, unk) in res:
-            if o[0] == 'raise' and not want:
-                outs.add(False)  # an AttributeError on an unexpected shape would crash minify; reported below
-                outs.add('raises ' + o[1])
-            elif o[0] != 'return' or o[1] is TOP:
-                raise AnalysisError('UNDECIDED: can_remove(if %s) -> %s %s' % (label, o, unk[:3]))
-            else:
-                outs.add(bool(o[1]))
-        got = outs - {False} if want else outs
-        ok = outs == {want}
-        rep.check(ok, 'C05.DEBUG', fi.loc(), 'if %s: -> removable=%s' % (label, sorted(map(str, outs))), 'as documented',
-                  '`if %s:` is %s; only tests of __debug__ being true may be removed (the interpreter\'s -O mode keeps every other block)' % (label, 'removed' if True in outs else 'not removed' if want else 'mishandled: %s' % sorted(map(str, outs))),
-                  key='C05.DEBUG|test|' + label)
-    non_if = Obj('While', test=Name('__debug__'), body=[], orelse=[])
-    I = Interp(model, tq.rsplit('.', 1)[0], hooks_for_transform())
-    res = I.explore(lambda: I.call_method(tq, 'can_remove', Obj('RemoveDebug'), [non_if]))
-    rep.check(all(o[0] == 'return' and o[1] is False for (o, _e, _u) in res), 'C05.DEBUG', fi.loc(), 'while __debug__: -> not removable', 'only if-statements', 'a non-if statement testing __debug__ is removed', key='C05.DEBUG|while')
-    # else branch: `if __debug__: A else: B` under -O runs B
-    B = Obj('Continue')
-    node = Obj('If', test=Name('__debug__'), body=[Obj('Break')], orelse=[B])
-    parent = Obj('FunctionDef', body=[node])
-    hooks = hooks_for_transform()
-    hooks['self.visit'] = lambda I, e, args, kw, env: args[0]
-    I = Interp(model, tq.rsplit('.', 1)[0], hooks)
-    res = I.explore(lambda: I.call_method(tq, 'suite', Obj('RemoveDebug'), [[node], parent]))
-    for (o, ev, unk) in res:
-        if o[0] != 'return' or o[1] is TOP:
-            raise AnalysisError('UNDECIDED: RemoveDebug.suite(if/else) -> %s %s' % (o, unk[:3]))
-        out = o[1]
-        survives = any(x is B for x in out) or any(x is node for x in out) or any(isinstance(x, Obj) and any(y is B for y in walk(x)) for x in out)
-        rep.check(survives, 'C05.DEBUG', model.method(tq, 'suite').loc(), 'if __debug__: A else: B  ->  %s' % [getattr(x, 'cls', x) for x in out], 'else branch survives',
-                  'the else branch of a removed __debug__ test is deleted too, but -O would run it', key='C05.DEBUG|else')
-    rep.floor('C05.DEBUG', 20)
-
-
-# ---------------------------------------------------------------------- DOC
-def doc(model, rep):
-    tq = FILTERING['RemoveLiteralStatements']
-    from .. import apirun
-    r_ = apirun.run(model, kwargs={'remove_literal_statements': True})
-    names_ = r_.names()
-    bound_before = 'RemoveLiteralStatements' in names_ and 'bind_names' in names_ and names_.index('bind_names') < names_.index('RemoveLiteralStatements')
-    shapes = {
-        'print(__doc__)': lambda: Expr(Call(Name('print'), [Name('__doc__')])),
-        'x.__doc__': lambda: Expr(Attr(Name('x'), '__doc__')),
-        '__doc__ = __doc__ + "x"': lambda: Obj('Assign', targets=[Name('__doc__', 'Store')], value=Obj('BinOp', left=Name('__doc__'), op=Obj('Add'), right=Const('x'))),
-        '__doc__ += "x"': lambda: Obj('AugAssign', target=Name('__doc__', 'Store'), op=Obj('Add'), value=Const('x')),
-        'def f(): global __doc__; __doc__ += "x"': lambda: Obj('FunctionDef', name='f', args=Obj('arguments', posonlyargs=[], args=[], vararg=None, kwonlyargs=[], kw_defaults=[], kwarg=None, defaults=[]),
-                                                                 body=[Obj('Global', names=['__doc__']), Obj('AugAssign', target=Name('__doc__', 'Store'), op=Obj('Add'), value=Const('x'))], decorator_list=[], returns=None, type_params=[]),
-        'del __doc__': lambda: Obj('Delete', targets=[Name('__doc__', 'Del')]),
-        'f(x)  (control)': lambda: Expr(Call(Name('f'), [Name('x')])),
-    }
-    fi = model.method(tq, '__call__')
-    for label, mk in shapes.items():
-        docstring = Expr(Const('module docstring'))
-        other = mk()
-        module = Obj('Module', body=[docstring, other], type_ignores=[])
-        set_parents(module)
-        # the binding table is only populated once bind_names has run (typestate taken from the pipeline order)
-        module.attrs['bindings'] = [] if not bound_before else TOP
-        I = Interp(model, tq.rsplit('.', 1)[0], hooks_for_transform())
-        res = I.explore(lambda: I.call_method(tq, '__call__', Obj('RemoveLiteralStatements'), [module]))
-        kept = set()
-        for (o, ev, unk) in res:
-            if o[0] != 'return':
-                raise AnalysisError('UNDECIDED: RemoveLiteralStatements()(module with %s) -> %s %s' % (label, o, unk[:3]))
-            kept.add(any(x is docstring for x in module.attrs['body']))
-        want = 'control' not in label
-        rep.check(kept == {want}, 'C05.DOC', fi.loc(), 'module docstring + `%s` -> docstring %s' % (label, 'kept' if True in kept else 'removed'), 'as documented',
-                  'the module docstring is %s although the module %s __doc__' % ('removed' if want else 'kept', 'uses' if want else 'does not use'), key='C05.DOC|' + label)
-    rep.floor('C05.DOC', 6)
-
-
-# ---------------------------------------------------------------------- EXC
-def exc(model, rep):
-    mod = T + 'remove_exception_brackets'
-    rf = model.func(mod + '._remove_empty_call')
-    top = model.func(mod + '.remove_no_arg_exception_call')
-    # 1. whitelist is a subset of the real exception classes
-    consts = model.module_assigns.get(mod, {})
-    used = set()
-    for n in walk_own(top.node):
-        if isinstance(n, ast.Compare) and isinstance(n.ops[0], ast.In):
-            for c in n.comparators:
-                for x in ast.walk(c):
-                    if isinstance(x, ast.Name) and x.id in consts:
-                        used.add(x.id)
-    names = []
-    for u in sorted(used):
-        try:
-            names += list(literal(consts[u], consts))
-        except ValueError:
-            raise AnalysisError('exception whitelist %s is not a literal list' % u)
-    if not names:
-        raise AnalysisError('exception whitelist not found in remove_no_arg_exception_call')
-    bad = [n for n in names if hasattr(builtins, n) and not (isinstance(getattr(builtins, n), type) and issubclass(getattr(builtins, n), BaseException))]
-    rep.check(not bad, 'C05.EXC', top.loc(), 'whitelist of %d names (%s)' % (len(names), ','.join(sorted(used))), 'every name that exists in builtins is an exception class',
-              'whitelist contains builtins that are not exception classes: %s (raise X and raise X() differ for them)' % bad, key='C05.EXC|whitelist')
-    # 2. which bindings are processed
-    processed = []
-    hooks = hooks_for_transform()
-    hooks['_remove_empty_call'] = lambda I, e, args, kw, env: processed.append(args[0])
-    hooks['.is_redefined'] = lambda I, e, args, kw, env: I.last_recv.attrs.get('_redefined', False)
-    b_ok = Obj('BuiltinBinding', name=names[0], _redefined=False)
-    b_redef = Obj('BuiltinBinding', name=names[0], _redefined=True)
-    b_name = Obj('NameBinding', name=names[0], _redefined=False)
-    b_notexc = Obj('BuiltinBinding', name='print', _redefined=False)
-    b_notexc2 = Obj('BuiltinBinding', name='NotImplemented', _redefined=False)
-    module = Obj('Module', bindings=[b_redef, b_name, b_notexc, b_ok, b_notexc2])
-    I = Interp(model, mod, hooks, version=(3, 12, 0))
-    res = I.explore(lambda: I.call_function(top.qual, [module]))
-    if any(o[0] != 'return' for (o, _e, _u) in res):
-        raise AnalysisError('UNDECIDED: remove_no_arg_exception_call -> %s' % [r[0] for r in res])
-    rep.check(len(processed) == 1 and processed[0] is b_ok, 'C05.EXC', top.loc(), 'bindings processed: %s' % [(b.cls, b.attrs['name'], b.attrs['_redefined']) for b in processed],
-              'only the un-shadowed builtin exception', 'brackets are removed for %s' % [(b.cls, b.attrs['name'], 'redefined' if b.attrs['_redefined'] else '') for b in processed if b is not b_ok] if processed else 'nothing is processed',
-              key='C05.EXC|bindings')
-    # is_redefined itself
-    ir = model.method('python_minifier.rename.binding.BuiltinBinding', 'is_redefined')
-    for label, refs, want in (('loads only', [Name('E'), Name('E')], False), ('a store', [Name('E'), Name('E', 'Store')], True), ('a def', [Name('E'), Obj('FunctionDef', name='E')], True),
-                              ('a del', [Name('E', 'Del')], True)):
-        so = Obj('BuiltinBinding', _references=refs)
-        so.attrs['references'] = refs
-        I = Interp(model, 'python_minifier.rename.binding', {})
-        r2 = I.explore(lambda: I.call_method('python_minifier.rename.binding.BuiltinBinding', 'is_redefined', so, []))
-        vals = {o[1] for (o, _e, _u) in r2 if o[0] == 'return'}
-        rep.check(vals == {want}, 'C05.EXC', ir.loc(), 'is_redefined with %s -> %s' % (label, sorted(map(str, vals))), 'as required', 'is_redefined() is %s for a builtin name with %s' % (sorted(map(str, vals)), label), key='C05.EXC|redefined|' + label)
-    # 3. positions
-    def case(label, build, want_rewritten):
-        name = Name('ValueError')
-        root, call_node, raise_node = build(name)
-        set_parents(root)
-        before = (raise_node.attrs.get('exc'), raise_node.attrs.get('cause')) if raise_node is not None else None
-        b = Obj('BuiltinBinding', _references=[name], name='ValueError')
-        b.attrs['references'] = [name]
-        I = Interp(model, mod, hooks_for_transform())
-        r3 = I.explore(lambda: I.call_function(rf.qual, [b]))
-        if any(o[0] != 'return' for (o, _e, _u) in r3):
-            raise AnalysisError('UNDECIDED: _remove_empty_call(%s) -> %s' % (label, [r[0] for r in r3]))
-        rewritten = raise_node is not None and (raise_node.attrs.get('exc'), raise_node.attrs.get('cause')) != before
-        untouched = all(not (isinstance(v, Obj) and v is name) or k == 'func' for n_ in walk(root) for k, v in n_.attrs.items() if k not in ('_parent',)) if not want_rewritten else True
-        rep.check(rewritten == want_rewritten, 'C05.EXC', rf.loc(), '%s -> %s' % (label, 'brackets removed' if rewritten else 'unchanged'), 'as documented',
-                  '%s: brackets %s' % (label, 'are removed although the call is not a plain no-argument raise of the exception' if rewritten else 'are not removed'), key='C05.EXC|pos|' + label)
-
-    def raise_exc(name):
-        c = Call(name)
-        r = Obj('Raise', exc=c, cause=None)
-        return r, c, r
-
-    def raise_cause(name):
-        c = Call(name)
-        r = Obj('Raise', exc=Name('e'), cause=c)
-        return r, c, r
-
-    def raise_args(name):
-        c = Call(name, [Const('msg')])
-        r = Obj('Raise', exc=c, cause=None)
-        return r, c, r
-
-    def raise_kw(name):
-        c = Call(name, [], [Obj('keyword', arg='x', value=Const(1))])
-        r = Obj('Raise', exc=c, cause=None)
-        return r, c, r
-
-    def expr_call(name):
-        c = Call(name)
-        e = Expr(c)
-        return e, c, None
-
-    def raise_name(name):
-        r = Obj('Raise', exc=name, cause=None)
-        return r, None, r
-
-    def raise_arg_of_call(name):
-        c = Call(Name('wrap'), [Call(name)])
-        r = Obj('Raise', exc=c, cause=None)
-        return r, c, r
-
-    def raise_attr_call(name):
-        c = Call(Attr(name, 'with_traceback'))
-        r = Obj('Raise', exc=c, cause=None)
-        return r, c, r
-    case('raise ValueError()', raise_exc, True)
-    case('raise e from ValueError()', raise_cause, True)
-    case("raise ValueError('msg')", raise_args, False)
-    case('raise ValueError(x=1)', raise_kw, False)
-    case('ValueError()  (not raised)', expr_call, False)
-    case('raise ValueError', raise_name, False)
-    case('raise wrap(ValueError())', raise_arg_of_call, False)
-    case('raise ValueError.with_traceback()', raise_attr_call, False)
-    rep.floor('C05.EXC', 14)
-
-
-# ---------------------------------------------------------------------- ANN / SCOPE
-def ann(model, rep):
-    tq = T + 'remove_annotations.RemoveAnnotations'
-    mod = tq.rsplit('.', 1)[0]
-    va = model.method(tq, 'visit_AnnAssign')
-    cells = 0
-    problems = {}
-
-    # The whole transformer is run (mapper first, then RemoveAnnotations(options)(module)) on a probe module per cell; the statement carrying the
-    # marker name is then classified. Nothing about the transformer's internals (attribute names, visit methods, caches per class) is assumed.
-    from .c03 import to_obj as to_marked_obj, MAPPER
-    OPTS = T + 'remove_annotations_options.RemoveAnnotationsOptions'
-    HEADS = {
-        'class': ('class C:', True, False), 'dataclass': ('@dataclass\nclass C:', True, True), 'dataclasses.dataclass': ('@dataclasses.dataclass\nclass C:', True, True),
-        'dataclass()': ('@dataclass(frozen=True)\nclass C:', True, True), 'dataclasses.dataclass()': ('@dataclasses.dataclass()\nclass C:', True, True),
-        'NamedTuple': ('class C(NamedTuple):', True, True), 'typing.NamedTuple': ('class C(typing.NamedTuple):', True, True), 'TypedDict': ('class C(TypedDict):', True, True),
-        'function': ('def f():', False, False), 'module': (None, False, False),
-        # scopes around or before the statement that must not change how it is treated
-        'dataclass, after an inner class': ('@dataclass\nclass C:\n    class Inner(Enum):\n        A = 1', True, True),
-        'NamedTuple, after a method with a local class': ('class C(NamedTuple):\n    def m(self):\n        class L: pass\n        return L', True, True),
-        'plain class inside a dataclass': ('@dataclass\nclass Outer:\n    class C:', True, False),
-        'dataclass inside a plain class': ('class Outer:\n    @dataclass\n    class C:', True, True),
-        'function inside a dataclass': ('@dataclass\nclass Outer:\n    def f(self):', False, False),
-    }
-    NESTS = {'direct': '{S}', 'if': 'if t:\n    {S}', 'for': 'for i in it:\n    {S}', 'while': 'while t:\n    {S}', 'with': 'with w:\n    {S}', 'try': 'try:\n    {S}\nfinally:\n    pass',
-             'else': 'if t:\n    pass\nelse:\n    {S}'}
-
-    def sibling_depth(head):
-        # for heads that end with a finished inner block, the probe statement belongs to class C: one level inside the `class C` line
-        for l in head.split('\n'):
-            if l.lstrip().startswith('class C'):
-                return (len(l) - len(l.lstrip())) + 4
-        return 4
-
-    def run_cell(source, rv, rc):
-        tree = ast.parse(source)
-        markers = {}
-        mod_obj = to_marked_obj(tree, markers)
-        set_parents(mod_obj)
-        I = Interp(model, mod, hooks_for_transform(), version=(3, 12, 0), max_depth=400)
-        I.MAX_PATHS = 8
-
-        def thunk():
-            I.call_function(MAPPER + '.add_namespace', [mod_obj])
-            opts = I.construct(ClassRef('RemoveAnnotationsOptions', OPTS), [], dict(remove_variable_annotations=rv, remove_return_annotations=False, remove_argument_annotations=False,
-                                                                                   remove_class_attribute_annotations=rc))
-            t = I.construct(ClassRef('RemoveAnnotations', tq), [opts], {})
-            return I.call_method(tq, '__call__', t, [mod_obj])
-        res = I.explore(thunk)
-        if len(res) != 1 or res[0][0][0] != 'return':
-            raise AnalysisError('UNDECIDED: RemoveAnnotations on %r -> %s %s' % (source[:60], [r[0] for r in res][:2], res[0][2][:3]))
-        out = res[0][0][1] if isinstance(res[0][0][1], Obj) else mod_obj
-        for o in walk(out):
-            if o.cls == 'AnnAssign' and isinstance(o.attrs.get('target'), Obj) and o.attrs['target'].attrs.get('id') == 'm_x':
-                a = o.attrs.get('annotation')
-                if isinstance(a, Obj) and a.cls == 'Name' and a.attrs.get('id') == 'int':
-                    return 'kept'
-                if isinstance(a, Obj) and a.cls == 'Constant' and a.attrs.get('value') == 0:
-                    return 'zero'
-                return 'other annotation %r' % (a,)
-            if o.cls == 'Assign' and any(isinstance(t_, Obj) and t_.attrs.get('id') == 'm_x' for t_ in o.attrs.get('targets', [])):
-                return 'assign'
-        return 'removed'
-
-    for scope_kind in sorted(HEADS):
-        head, is_class, protected = HEADS[scope_kind]
-        for nest in ('direct', 'if', 'for', 'while', 'with', 'try', 'else'):
-            if ' ' in scope_kind and nest not in ('direct', 'if'):
-                continue
-            for has_value in (True, False):
-                stmt = 'm_x: int = 1' if has_value else 'm_x: int'
-                body = NESTS[nest].replace('{S}', stmt)
-                if head is None:
-                    source = body + '\n'
-                else:
-                    last = head.split('\n')[-1]
-                    depth = (len(last) - len(last.lstrip())) + 4 if last.rstrip().endswith(':') and not (scope_kind.startswith('dataclass, after') or scope_kind.startswith('NamedTuple, after')) else sibling_depth(head)
-                    source = head + '\n' + '\n'.join(' ' * depth + l for l in body.split('\n')) + '\n'
-                for rv in (True, False):
-                    for rc in (True, False):
-                        got = run_cell(source, rv, rc)
-                        cells += 1
-                        selected = rc if is_class else rv
-                        if not selected or protected:
-                            want = 'kept'
-                        elif has_value:
-                            want = 'assign'
-                        else:
-                            want = 'zero'
-                        if got != want:
-                            problems.setdefault((scope_kind, nest), []).append('value=%s var_opt=%s class_opt=%s: %s, expected %s' % (has_value, rv, rc, got, want))
-    rep.count('annassign_cells', cells)
-    by_nest = {}
-    for (scope_kind, nest), ps in problems.items():
-        by_nest.setdefault(('nested' if nest != 'direct' else 'direct', scope_kind), []).append((nest, ps))
-    if problems:
-        for (kind, scope_kind), items in sorted(by_nest.items()):
-            nests = sorted(n for n, _ in items)
-            rep.violation('C05.ANN', va.loc(), 'annotated assignment %s in a %s body%s' % (kind, scope_kind, ' (under %s)' % '/'.join(nests) if kind == 'nested' else ''),
-                          '%s' % items[0][1][0] + ' -- what happens to an annotated assignment must depend only on the options and on the class/function/module it belongs to (fields of dataclass / NamedTuple / TypedDict classes are never touched)',
-                          key='C05.ANN|%s|%s' % (kind, scope_kind))
-    else:
-        rep.ok('C05.ANN', va.loc(), 'visit_AnnAssign on %d (scope x nesting x value x options) cells' % cells, 'kept / assignment / `x: 0` exactly as documented', cells=cells, key='C05.ANN|annassign')
-    # arguments and returns
-    for opt_name, want_removed in (('remove_argument_annotations', True), ('remove_argument_annotations', False)):
-        a = Obj('arg', arg='p', annotation=Name('int'))
-        opts = Obj('RemoveAnnotationsOptions', closed=True, remove_variable_annotations=False, remove_return_annotations=not want_removed, remove_argument_annotations=want_removed, remove_class_attribute_annotations=False)
-        so = Obj('RemoveAnnotations', _options=opts)
-        I = Interp(model, mod, hooks_for_transform(), version=(3, 12, 0))
-        res = I.explore(lambda: I.call_method(tq, 'visit_arg', so, [a]))
-        removed = a.attrs['annotation'] is None
-        rep.check(removed == want_removed, 'C05.ANN', model.method(tq, 'visit_arg').loc(), 'argument annotation with remove_argument_annotations=%s (return option %s) -> %s' % (want_removed, not want_removed, 'removed' if removed else 'kept'),
-                  'controlled by its own option', 'argument annotations are %s with remove_argument_annotations=%s' % ('removed' if removed else 'kept', want_removed), key='C05.ANN|arg|%s' % want_removed)
-    for want_removed in (True, False):
-        args = Obj('arguments', posonlyargs=[Obj('arg', arg='a', annotation=Name('A'))], args=[Obj('arg', arg='b', annotation=Name('B'))], vararg=Obj('arg', arg='v', annotation=Name('V')),
-                   kwonlyargs=[Obj('arg', arg='k', annotation=Name('K'))], kw_defaults=[None], kwarg=Obj('arg', arg='kw', annotation=Name('KW')), defaults=[])
-        fn = Obj('FunctionDef', name='f', args=args, body=[Obj('Pass')], decorator_list=[], returns=Name('R'), type_params=[])
-        opts = Obj('RemoveAnnotationsOptions', closed=True, remove_variable_annotations=False, remove_return_annotations=want_removed, remove_argument_annotations=not want_removed, remove_class_attribute_annotations=False)
-        so = Obj('RemoveAnnotations', _options=opts)
-        hooks = hooks_for_transform()
-        hooks['self.suite'] = lambda I, e, a_, kw, env: a_[0]
-        hooks['self.visit'] = lambda I, e, a_, kw, env: a_[0]
-        I = Interp(model, mod, hooks, version=(3, 12, 0))
-        res = I.explore(lambda: I.call_method(tq, 'visit_FunctionDef', so, [fn]))
-        if any(o[0] != 'return' for (o, _e, _u) in res):
-            raise AnalysisError('UNDECIDED: RemoveAnnotations.visit_FunctionDef -> %s' % [r[0] for r in res])
-        removed = fn.attrs['returns'] is None
-        rep.check(removed == want_removed, 'C05.ANN', model.method(tq, 'visit_FunctionDef').loc(), 'return annotation with remove_return_annotations=%s -> %s' % (want_removed, 'removed' if removed else 'kept'),
-                  'controlled by its own option', 'return annotation is %s with remove_return_annotations=%s' % ('removed' if removed else 'kept', want_removed), key='C05.ANN|returns|%s' % want_removed)
-        all_args = args.attrs['posonlyargs'] + args.attrs['args'] + [args.attrs['vararg']] + args.attrs['kwonlyargs'] + [args.attrs['kwarg']]
-        arg_removed = {x.attrs['arg']: x.attrs['annotation'] is None for x in all_args}
-        want_args = not want_removed
-        rep.check(all(v == want_args for v in arg_removed.values()), 'C05.ANN', model.method(tq, 'visit_arguments').loc(), 'all five argument kinds with remove_argument_annotations=%s -> %s' % (want_args, arg_removed),
-                  'every kind handled alike', 'argument kinds are treated differently: %s' % arg_removed, key='C05.ANN|argkinds|%s' % want_args)
-    rep.floor('C05.ANN', 7)
-
-
-# ---------------------------------------------------------------------- RET / OBJ / IMP / POS
-def small(model, rep):
-    # RET
-    tq = T + 'remove_explicit_return_none.RemoveExplicitReturnNone'
-    mod = tq.rsplit('.', 1)[0]
-    vr = model.method(tq, 'visit_Return')
-    for label, val, want_none in (('return None', lambda: Const(None), True), ('return 0', lambda: Const(0), False), ('return False', lambda: Const(False), False), ("return ''", lambda: Const(''), False),
-                                  ('return x', lambda: Name('x'), False), ('return', lambda: None, True), ('return (None,)', lambda: Obj('Tuple', elts=[Const(None)]), False)):
-        v = val()
-        node = Obj('Return', value=v)
-        I = Interp(model, mod, hooks_for_transform(), version=(3, 12, 0))
-        res = I.explore(lambda: I.call_method(tq, 'visit_Return', Obj('RemoveExplicitReturnNone'), [node]))
-        if any(o[0] != 'return' for (o, _e, _u) in res):
-            raise AnalysisError('UNDECIDED: visit_Return(%s) -> %s' % (label, [r[0] for r in res]))
-        got_none = node.attrs['value'] is None
-        rep.check(got_none == want_none, 'C05.RET', vr.loc(), '%s -> %s' % (label, 'bare return' if got_none else 'unchanged'), 'only the constant None is dropped',
-                  '`%s` is rewritten to a bare return' % label if got_none else '`%s` is not rewritten' % label, key='C05.RET|' + label)
-    vf = model.method(tq, 'visit_FunctionDef')
-    for label, body, want in (('[x, return]', lambda: [Expr(Name('x')), Obj('Return', value=None)], 1), ('[return]', lambda: [Obj('Return', value=None)], 'zero'),
-                              ('[return x]', lambda: [Obj('Return', value=Name('x'))], 1), ('[return, x]', lambda: [Obj('Return', value=None), Expr(Name('x'))], 2),
-                              ('[return None]', lambda: [Obj('Return', value=Const(None))], 'zero')):
-        b = body()
-        fn = Obj('FunctionDef', name='f', body=b, decorator_list=[])
-        hooks = hooks_for_transform()
-        I = Interp(model, mod, hooks, version=(3, 12, 0))
-        res = I.explore(lambda: I.call_method(tq, 'visit_FunctionDef', Obj('RemoveExplicitReturnNone'), [fn]))
-        if any(o[0] != 'return' for (o, _e, _u) in res):
-            raise AnalysisError('UNDECIDED: RemoveExplicitReturnNone.visit_FunctionDef(%s) -> %s %s' % (label, [r[0] for r in res], res[0][2][:3]))
-        out = fn.attrs['body']
-        if want == 'zero':
-            ok = len(out) == 1 and out[0].cls == 'Expr' and out[0].attrs['value'].cls == 'Constant' and out[0].attrs['value'].attrs['value'] == 0
-        else:
-            ok = len(out) == want and all(x in b for x in out)
-        rep.check(ok, 'C05.RET', vf.loc(), 'function body %s -> %s' % (label, [x.cls for x in out]), 'only a trailing bare return is dropped; emptied body becomes `0`',
-                  'function body %s becomes %s' % (label, [x.cls for x in out]), key='C05.RET|body|' + label)
-    rep.floor('C05.RET', 12)
-
-    # OBJ
-    tq = T + 'remove_object_base.RemoveObject'
-    mod = tq.rsplit('.', 1)[0]
-    vc = model.method(tq, 'visit_ClassDef')
-    o1, foo, attr = Name('object'), Name('Foo'), Attr(Name('builtins'), 'object')
-    kwv = Name('object')
-    cls = Obj('ClassDef', name='C', bases=[o1, foo, attr], keywords=[Obj('keyword', arg='metaclass', value=kwv)], body=[Obj('Pass')], decorator_list=[Name('object')], type_params=[])
-    hooks = hooks_for_transform()
-    hooks['self.visit'] = lambda I, e, a_, kw, env: a_[0]
-    I = Interp(model, mod, hooks, version=(3, 12, 0))
-    res = I.explore(lambda: I.call_method(tq, 'visit_ClassDef', Obj('RemoveObject'), [cls]))
-    if any(o[0] != 'return' for (o, _e, _u) in res):
-        raise AnalysisError('UNDECIDED: RemoveObject.visit_ClassDef -> %s' % [r[0] for r in res])
-    bases = cls.attrs['bases']
-    ok = len(bases) == 2 and bases[0] is foo and bases[1] is attr and cls.attrs['keywords'][0].attrs['value'] is kwv and len(cls.attrs['decorator_list']) == 1
-    rep.check(ok, 'C05.OBJ', vc.loc(), 'class C(object, Foo, builtins.object, metaclass=object) -> bases %s' % [src_of(b) for b in bases], 'only the plain name object is dropped, only from the bases',
-              'base list becomes %s / keywords or decorators touched' % [src_of(b) for b in bases], key='C05.OBJ|bases')
-    rep.floor('C05.OBJ', 1)
-
-    # IMP
-    tq = T + 'combine_imports.CombineImports'
-    mod = tq.rsplit('.', 1)[0]
-    sf = model.method(tq, 'suite')
-
-    def alias(n, a=None):
-        return Obj('alias', name=n, asname=a)
-
-    def imp(*names):
-        return Obj('Import', names=[alias(n) for n in names], namespace='NS')
-
-    def frm(module, level, *names):
-        return Obj('ImportFrom', module=module, names=[alias(n) for n in names], level=level, namespace='NS')
-
-    def describe(stmts):
-        out = []
-        for s in stmts:
-            if not isinstance(s, Obj):
-                out.append(repr(s))
-            elif s.cls == 'Import':
-                out.append('import ' + ','.join(a.attrs['name'] for a in s.attrs['names']))
-            elif s.cls == 'ImportFrom':
-                out.append('from %s%s import %s' % ('.' * s.attrs['level'], s.attrs['module'] or '', ','.join(a.attrs['name'] for a in s.attrs['names'])))
-            else:
-                out.append(s.cls)
-        return out
-    X = lambda: Expr(Call(Name('f')))
-    cases = [
-        ('import a; import b', [imp('a'), imp('b')], ['import a,b']),
-        ('import b; import a', [imp('b'), imp('a')], ['import b,a']),
-        ('import a; f(); import b', [imp('a'), X(), imp('b')], ['import a', 'Expr', 'import b']),
-        ('from m import a; from m import b', [frm('m', 0, 'a'), frm('m', 0, 'b')], ['from m import a,b']),
-        ('from m import a; from n import b', [frm('m', 0, 'a'), frm('n', 0, 'b')], ['from m import a', 'from n import b']),
-        ('from m import a; from .m import b', [frm('m', 0, 'a'), frm('m', 1, 'b')], ['from m import a', 'from .m import b']),
-        ('from m import *; from m import b', [frm('m', 0, '*'), frm('m', 0, 'b')], ['from m import *', 'from m import b']),
-        ('from m import a; from m import *', [frm('m', 0, 'a'), frm('m', 0, '*')], ['from m import a', 'from m import *']),
-        ('from m import a; import x; from m import b', [frm('m', 0, 'a'), imp('x'), frm('m', 0, 'b')], ['from m import a', 'import x', 'from m import b']),
-        ('import a; from m import b; import c', [imp('a'), frm('m', 0, 'b'), imp('c')], ['import a', 'from m import b', 'import c']),
-        ('from m import b; from m import a; f()', [frm('m', 0, 'b'), frm('m', 0, 'a'), X()], ['from m import b,a', 'Expr']),
-    ]
-    for label, stmts, want in cases:
-        parent = Obj('Module', body=stmts)
-        hooks = hooks_for_transform()
-        hooks['self.visit'] = lambda I, e, a_, kw, env: a_[0]
-        I = Interp(model, mod, hooks, version=(3, 12, 0))
-        res = I.explore(lambda: I.call_method(tq, 'suite', Obj('CombineImports'), [stmts, parent]))
-        for (o, ev, unk) in res:
-            if o[0] != 'return' or o[1] is TOP:
-                raise AnalysisError('UNDECIDED: CombineImports.suite(%s) -> %s %s' % (label, o, unk[:3]))
-            got = describe(o[1])
-            rep.check(got == want, 'C05.IMP', sf.loc(), '%s -> %s' % (label, '; '.join(got)), 'adjacent imports merged in order, nothing reordered',
-                      '`%s` becomes `%s`, expected `%s`' % (label, '; '.join(got), '; '.join(want)), key='C05.IMP|' + label)
-    rep.floor('C05.IMP', 11)
-
-    # POS
-    rp = model.func(T + 'remove_posargs.remove_posargs')
-    a, b, c = Obj('arg', arg='a'), Obj('arg', arg='b'), Obj('arg', arg='c')
-    args = Obj('arguments', posonlyargs=[a, b], args=[c], vararg=None, kwonlyargs=[], kw_defaults=[], kwarg=None, defaults=[Const(1)])
-    I = Interp(model, rp.module, hooks_for_transform(), version=(3, 12, 0))
-    res = I.explore(lambda: I.call_function(rp.qual, [args]))
-    if any(o[0] != 'return' for (o, _e, _u) in res):
-        raise AnalysisError('UNDECIDED: remove_posargs -> %s' % [r[0] for r in res])
-    ok = args.attrs['posonlyargs'] == [] and [x.attrs['arg'] for x in args.attrs['args']] == ['a', 'b', 'c'] and len(args.attrs['defaults']) == 1 and args.attrs['kwonlyargs'] == []
-    rep.check(ok, 'C05.POS', rp.loc(), 'def f(a, b, /, c=1) -> args %s posonly %s' % ([x.attrs['arg'] for x in args.attrs['args']], args.attrs['posonlyargs']), 'positional-only parameters prepended in order, nothing else touched',
-              'arguments become args=%s posonlyargs=%s' % ([x.attrs['arg'] for x in args.attrs['args']], args.attrs['posonlyargs']), key='C05.POS')
-    rep.floor('C05.POS', 1)
-
-
-def src_of(o):
-    if not isinstance(o, Obj):
-        return repr(o)
-    if o.cls == 'Name':
-        return o.attrs['id']
-    if o.cls == 'Attribute':
-        return src_of(o.attrs['value']) + '.' + o.attrs['attr']
-    return o.cls
